@@ -33,8 +33,14 @@ Apply(o, mem, store, healthy) ==
     [] o.kind = "proc" ->
          LET ts == Targets(o, mem)
              Rec(t) == IF mem[t] # <<>> /\ mem[t][1] = "#2" THEN "2:" \o o.msg ELSE o.msg
-             ws == [t \in ts |-> [from |-> mem[t], to |-> Append(mem[t], Rec(t))]]
-         IN IF healthy \/ ts = {}
+             \* a machine that failed (a "boom" message: the first step of its walk errs) sits at the error node, its
+             \* state marked "@err", and reacts to nothing any more
+             Stuck(t) == mem[t] # <<>> /\ mem[t][Len(mem[t])] = "@err"
+             Boom == "boom" \in DOMAIN o /\ o.boom
+             To(t) == IF Stuck(t) THEN mem[t] ELSE IF Boom THEN Append(mem[t], "@err") ELSE Append(mem[t], Rec(t))
+             ws == [t \in ts |-> [from |-> mem[t], to |-> To(t)]]
+         \* (nothing moved - every addressed machine is stuck -: nothing to write, so a failing store does not matter)
+         IN IF healthy \/ ts = {} \/ (\A t \in ts : ws[t].to = ws[t].from)
             THEN [res |-> "ok", walks |-> ws,
                   mem |-> [t \in DOMAIN mem |-> IF t \in ts THEN ws[t].to ELSE mem[t]],
                   store |-> [t \in DOMAIN store \cup ts |-> IF t \in ts THEN ws[t].to ELSE store[t]]]
